@@ -300,4 +300,28 @@ MarkerCoherent(t) ==
             /\ LET d == ApplySkip(t.skip, t.sort, t.proj, t.dedup, t.a, t.b) IN
                ~IsErr(d) /\ d.t = t.t
 
+
+(***************************************************************************)
+(* C17 read to the letter: the nodes between a SELECT marker and its skip  *)
+(* target are exactly the recorded operations (a do-nothing one may be     *)
+(* absent).  ApplySkip builds the target with _finish_apply, whose         *)
+(* simplification can reach INTO the skip target: a recorded projection    *)
+(* that does not keep the column of a Calculation at the top of the skip   *)
+(* target elides that Calculation from the target chain (open finding F15; *)
+(* harmless for the SQL, which is generated from the slots and skip_to).   *)
+(***************************************************************************)
+RECURSIVE NaiveFold(_, _)
+NaiveFold(ops, t) == IF ops = <<>> THEN t
+                     ELSE NaiveFold(Tail(ops), IF IsNoOp(Head(ops), Cols(t)) THEN t ELSE Un(Head(ops), t))
+StrictTarget(s) == NaiveFold(SelOps(s), s.skip)
+KF15(s) == s.proj.some /\ s.skip.k = "un" /\ s.skip.op.o = "calc" /\ s.skip.op.tag \notin s.proj.cols
+             /\ ~HasSort(s)
+RECURSIVE StrictCoherent(_, _)
+StrictCoherent(t, excludeKF) ==
+    CASE t.k = "leaf" -> TRUE
+      [] t.k = "un"   -> StrictCoherent(t.t, excludeKF)
+      [] t.k = "bin"  -> StrictCoherent(t.l, excludeKF) /\ StrictCoherent(t.r, excludeKF)
+      [] t.k \in {"xfer", "mat"} -> StrictCoherent(t.t, excludeKF)
+      [] t.k = "sel"  -> /\ StrictCoherent(t.skip, excludeKF)
+                         /\ (excludeKF /\ KF15(t)) \/ t.t = StrictTarget(t)
 =============================================================================
